@@ -26,8 +26,9 @@ ERRS = [
     ('overflow', '(m% + m%)', 10, 'm% = 2', 4),
     ('subscript', 'a%(i%)', 11, 'i% = 1', 0),
     ('illegal-arg', 'ASC(LEFT$("x", n%))', 9, 'n% = 1', 120),
+    ('pow-zero-negative', 'CINT(zf! ^ nf!)', 14, 'zf! = 1', 1),
 ]
-PRELUDE = ['z% = 0', 'm% = 32767', 'i% = 9', 'n% = -1', 'DIM a%(3)']
+PRELUDE = ['z% = 0', 'm% = 32767', 'i% = 9', 'n% = -1', 'zf! = 0', 'nf! = -1', 'DIM a%(3)']
 
 
 def pnum(v):
@@ -43,6 +44,9 @@ SHAPES = [
     ('print-list', 'PRINT 1; 2; {E}', lambda v: pnum(1) + pnum(2) + pnum(v) + '\r\n', 5),
     ('if-line', 'IF {E} >= 0 THEN PRINT "t"', lambda v: 't\r\n', 0),
     ('nested', 'x% = 2 * (3 + {E})', lambda v: None, 2),
+    # the failing statement nested inside a single-line IF / a CASE body, followed by
+    # another statement of the same line / body: RESUME NEXT continues THERE
+    ('in-if-line', 'IF 1 THEN x% = {E}: PRINT "rest"', lambda v: 'rest\r\n', 0),
 ]
 
 
@@ -63,10 +67,13 @@ def program(shape, err, resume, placement, second):
     body.append(stmt)
     body.append('PRINT "after"')
     exp_body = ['before\r\n']
+    rest = ['rest\r\n'] if sname == 'in-if-line' else []
     if resume == 'next':
         exp_body.append(f'H{pnum(code)}\r\n')
+        exp_body += rest
         exp_body.append('after\r\n')
     elif resume == 'mode-next':
+        exp_body += rest
         exp_body.append('after\r\n')
     elif resume == 'resume':
         exp_body.append(f'H{pnum(code)}\r\n')
@@ -141,7 +148,7 @@ def gen(tier, rng):
     levels = (0, 2) if tier == 'quick' else (0, 1, 2)
     if tier == 'quick':
         rng.shuffle(cases)
-        cases = cases[:70]
+        cases = cases[:110]
     for c in cases:
         for level in levels:
             d = dict(c)
